@@ -13,7 +13,7 @@ import topo
 from common import f2b
 
 LEVEL = 'proof'
-MODULES = ['C12']
+MODULES = ['C12', 'C12b']
 FIELDS = ('g0', 'g1', 'es0', 'es1', 'pulses')
 
 
